@@ -438,12 +438,14 @@ pub fn auth_call_json(r: &mut Rng, wj: &WorldJson, schema: &Option<SchemaIn>, va
 }
 
 /// the stateless FFI through its three entry points; they must agree with each other
-fn ffi_auth(call: &Value, out: &mut Out, desc: &str) -> Option<String> {
+fn ffi_auth(call: &Value, out: &mut Out, desc: &str, all_routes: bool) -> Option<String> {
     let a = match guard(|| ffi::is_authorized_json(call.clone())) {
         Ok(Ok(v)) => canon_ffi_json(&v),
         Ok(Err(e)) => format!("(not-a-call {})", e.to_string().chars().take(80).collect::<String>()),
         Err(p) => { out.propfail("panic in ffi::is_authorized_json", desc, &p); return None; }
     };
+    if !all_routes { return Some(a); }
+    out.count("auth_three_entry_points");
     let b = match guard(|| serde_json::from_value::<ffi::AuthorizationCall>(call.clone()).map(ffi::is_authorized)) {
         Ok(Ok(ans)) => canon_ffi_typed(&ans),
         Ok(Err(e)) => format!("(not-a-call {})", e.to_string().chars().take(80).collect::<String>()),
@@ -499,7 +501,7 @@ fn auth_case(r: &mut Rng, g: &mut ExprGen, out: &mut Out, idx: u64) {
     for validate in [true, false] {
         let call = auth_call_json(r, &wj, &schema, validate, &doc.json);
         let desc = format!("auth {sdesc} {mutation} validate={validate} {}", doc.desc);
-        let Some(got) = ffi_auth(&call, out, &desc) else { continue };
+        let Some(got) = ffi_auth(&call, out, &desc, idx % 3 == 0) else { continue };
         let want = match guard(|| ref_auth(&wj, &schema, validate, &doc.reference)) {
             Ok(Ok(s)) => s,
             Ok(Err(e)) => { out.count(&format!("auth_failure_because_{}", e.chars().take(if e.starts_with("error during entity") { 140 } else { 48 }).collect::<String>().replace('\n', " "))); "failure".to_string() }
@@ -663,6 +665,22 @@ fn check_parse_case(r: &mut Rng, g: &mut ExprGen, out: &mut Out, idx: u64) {
             })();
             out.count("check_parse_entities"); out.count(&format!("check_parse_entities_{got}"));
             if got != tf(want.is_ok()) { out.propfail("ffi::check_parse_entities differs from Entities::from_json_value", &desc, &format!("ffi {got} ; api {:?} ; call {call}", want.err())); }
+        }
+    }
+    // scope variables (principal/action/resource against the schema)
+    {
+        let call = json!({"principal": wj.principal, "action": wj.action, "resource": wj.resource, "schema": schema.to_ffi()});
+        let desc = format!("check_parse_scope_variables {mutation} applies={:?} p={} a={} r={}", spec.applies, w.principal, w.action, w.resource);
+        if let Some(got) = ans(guard(|| ffi::check_parse_scope_variables_json(call.clone())), out, "check_parse_scope_variables_json", &desc) {
+            let want = (|| -> Result<(), String> {
+                let s = schema.api()?;
+                let p = cp::EntityUid::from_json(wj.principal.clone()).map_err(|e| e.to_string())?;
+                let a = cp::EntityUid::from_json(wj.action.clone()).map_err(|e| e.to_string())?;
+                let r = cp::EntityUid::from_json(wj.resource.clone()).map_err(|e| e.to_string())?;
+                cp::validate_scope_variables(&p, &a, &r, &s).map_err(|e| e.to_string())
+            })();
+            out.count("check_parse_scope_variables"); out.count(&format!("check_parse_scope_variables_{got}"));
+            if got != tf(want.is_ok()) { out.propfail("ffi::check_parse_scope_variables differs from validate_scope_variables", &desc, &format!("ffi {got} ; api {:?} ; call {call}", want.err())); }
         }
     }
     // context, with schema+action / without
@@ -836,6 +854,18 @@ fn convert_case(r: &mut Rng, g: &mut ExprGen, out: &mut Out, idx: u64) {
                 _ => out.propfail("ffi::schema_to_json: success/failure differs from the API", &desc, &format!("ffi {v} ; api {want:?}")),
             }
         }
+        // Cedar text -> JSON with resolved types
+        if let SchemaIn::Cedar(text) = &schema {
+            if let Some(v) = answer_of(guard(|| serde_json::to_value(ffi::schema_to_json_with_resolved_types(text)).unwrap()), out, "schema_to_json_with_resolved_types", &desc) {
+                let want = cp::schema_str_to_json_with_resolved_types(text).map(|(j, _)| j).map_err(|e| e.to_string());
+                out.count("convert_schema_resolved_types");
+                match (is_success(&v), &want) {
+                    (Some(true), Ok(wj)) => if &v["json"] != wj { out.propfail("ffi::schema_to_json_with_resolved_types differs from the API", &desc, &format!("ffi {} ; api {wj}", v["json"])); },
+                    (Some(false), Err(_)) => out.count("convert_schema_resolved_types_both_fail"),
+                    _ => out.propfail("ffi::schema_to_json_with_resolved_types: success/failure differs from the API", &desc, &format!("ffi {v} ; api {want:?}")),
+                }
+            }
+        }
         // -> text
         if let Some(Ok(v)) = answer_of(guard(|| ffi_schema(&schema).map(|s| serde_json::to_value(ffi::schema_to_text(s)).unwrap())), out, "schema_to_text", &desc) {
             let want = (|| -> Result<String, String> {
@@ -971,7 +1001,7 @@ fn history_case(r: &mut Rng, g: &mut ExprGen, out: &mut Out, prefix: &str) {
                 let (want, want_api) = match (shadow_p.get(&pname), &sdoc) {
                     (Some(pd), Some(sd)) => {
                         let stateless = auth_call_json(r, &wj, sd, validate, &pd.json);
-                        let Some(a) = ffi_auth(&stateless, out, &desc) else { return };
+                        let Some(a) = ffi_auth(&stateless, out, &desc, false) else { return };
                         let b = match guard(|| ref_auth(&wj, sd, validate, &pd.reference)) { Ok(Ok(s)) => s, Ok(Err(_)) => "failure".into(), Err(p) => { out.propfail("panic in the API route", &desc, &p); return; } };
                         (a, b)
                     }
@@ -999,21 +1029,55 @@ fn history_case(r: &mut Rng, g: &mut ExprGen, out: &mut Out, prefix: &str) {
 // ---------------------------------------------------------------------------------------------
 // streams
 
-pub fn run(args: &Args, out: &mut Out) {
-    let mut rng = Rng::new(args.seed ^ 0xC19);
-    let mut g = ExprGen::new(6);
-    for i in 0..args.n {
-        let mut cr = rng.fork();
-        auth_case(&mut cr, &mut g, out, i);
-        out.cases += 1;
-        if i % 4 == 0 {
-            validate_case(&mut cr, &mut g, out, i);
-            check_parse_case(&mut cr, &mut g, out, i);
-            format_case(&mut cr, &mut g, out);
-            convert_case(&mut cr, &mut g, out, i);
-            out.cases += 4;
+/// Run `n` independent cases on WORKERS threads. Case i gets its own Rng (forked up front from the seed) and goes to
+/// worker i % WORKERS; the workers' outputs are merged in worker order, so a run is a function of the seed.
+/// (The FFI's authorizer and caches are thread-local; cases of these streams share no state.)
+type CaseFn = std::sync::Arc<dyn Fn(u64, &mut Rng, &mut ExprGen, &mut Out) + Send + Sync>;
+
+fn parallel(args: &Args, salt: u64, out: &mut Out, case: CaseFn) {
+    const WORKERS: u64 = 8;
+    let mut rng = Rng::new(args.seed ^ salt);
+    let forks: Vec<Rng> = (0..args.n).map(|_| rng.fork()).collect();
+    let mut handles = Vec::new();
+    for wk in 0..WORKERS {
+        let mine: Vec<(u64, Rng)> = forks.iter().cloned().enumerate().map(|(i, f)| (i as u64, f)).filter(|(i, _)| i % WORKERS == wk).collect();
+        let case = case.clone();
+        handles.push(std::thread::Builder::new().stack_size(128 << 20).spawn(move || {
+            let mut out = Out::default();
+            let mut g = ExprGen::new(6);
+            for (i, mut cr) in mine { case(i, &mut cr, &mut g, &mut out); }
+            out
+        }).expect("spawn worker"));
+    }
+    for h in handles {
+        match h.join() {
+            Ok(o) => {
+                out.propfail.extend(o.propfail);
+                for (k, v) in o.stats { out.add(&k, v); }
+                out.nontrivial.extend(o.nontrivial);
+                for s in o.samples { out.sample(s); }
+                out.cases += o.cases;
+            }
+            Err(_) => { eprintln!("worker panicked"); std::process::exit(3); }
         }
     }
+}
+
+pub fn run(args: &Args, out: &mut Out) {
+    parallel(args, 0xC19, out, std::sync::Arc::new(|i: u64, cr: &mut Rng, g: &mut ExprGen, out: &mut Out| {
+        let t = |out: &mut Out, k: &str, t0: std::time::Instant| out.add(k, t0.elapsed().as_millis() as u64);
+        let t0 = std::time::Instant::now();
+        auth_case(cr, g, out, i);
+        t(out, "time_ms_auth", t0);
+        out.cases += 1;
+        if i % 4 == 0 {
+            let t0 = std::time::Instant::now(); validate_case(cr, g, out, i); t(out, "time_ms_validate", t0);
+            let t0 = std::time::Instant::now(); check_parse_case(cr, g, out, i); t(out, "time_ms_check_parse", t0);
+            let t0 = std::time::Instant::now(); format_case(cr, g, out); t(out, "time_ms_format", t0);
+            let t0 = std::time::Instant::now(); convert_case(cr, g, out, i); t(out, "time_ms_convert", t0);
+            out.cases += 4;
+        }
+    }));
 }
 
 pub fn run_histories(args: &Args, out: &mut Out) {
@@ -1360,45 +1424,19 @@ pub fn run_cli(args: &Args, out: &mut Out) {
         eprintln!("cedar CLI binary not found at {} (run ./setup.sh or set CEDAR_CLI)", cli.display());
         std::process::exit(4);
     }
-    // process start-up dominates: run the cases on WORKERS threads; case i (its own forked Rng, fixed up front)
-    // goes to worker i % WORKERS, results are merged in worker order, so a run is a function of the seed
-    const WORKERS: u64 = 8;
-    let mut rng = Rng::new(args.seed ^ 0xC19D);
-    let forks: Vec<Rng> = (0..args.n).map(|_| rng.fork()).collect();
+    // process start-up dominates: run on worker threads
     let base = std::path::Path::new(&args.out).join("cli");
-    let mut handles = Vec::new();
-    for wk in 0..WORKERS {
-        let mine: Vec<(u64, Rng)> = forks.iter().cloned().enumerate().map(|(i, f)| (i as u64, f)).filter(|(i, _)| i % WORKERS == wk).collect();
-        let (cli, base) = (cli.clone(), base.clone());
-        handles.push(std::thread::Builder::new().stack_size(128 << 20).spawn(move || {
-            let mut out = Out::default();
-            let mut g = ExprGen::new(6);
-            for (i, mut cr) in mine {
-                let dir = base.join(format!("{}", i % 64)); // inputs of the most recent runs stay on disk
-                let _ = std::fs::remove_dir_all(&dir);
-                std::fs::create_dir_all(&dir).expect("mkdir");
-                match cr.below(20) {
-                    0..=9 => cli_authorize(&mut cr, &mut g, &mut out, &cli, &dir, i),
-                    10..=13 => cli_validate(&mut cr, &mut g, &mut out, &cli, &dir, i),
-                    14..=15 => cli_check_parse(&mut cr, &mut g, &mut out, &cli, &dir, i),
-                    16..=18 => cli_translate(&mut cr, &mut g, &mut out, &cli, &dir, i),
-                    _ => cli_format(&mut cr, &mut g, &mut out, &cli, &dir),
-                }
-                out.cases += 1;
-            }
-            out
-        }).expect("spawn worker"));
-    }
-    for h in handles {
-        match h.join() {
-            Ok(o) => {
-                out.propfail.extend(o.propfail);
-                for (k, v) in o.stats { out.add(&k, v); }
-                out.nontrivial.extend(o.nontrivial);
-                for s in o.samples { out.sample(s); }
-                out.cases += o.cases;
-            }
-            Err(_) => { eprintln!("cli worker panicked"); std::process::exit(3); }
+    parallel(args, 0xC19D, out, std::sync::Arc::new(move |i: u64, cr: &mut Rng, g: &mut ExprGen, out: &mut Out| {
+        let dir = base.join(format!("{}", i % 64)); // inputs of the most recent runs stay on disk
+        let _ = std::fs::remove_dir_all(&dir);
+        std::fs::create_dir_all(&dir).expect("mkdir");
+        match cr.below(20) {
+            0..=9 => cli_authorize(cr, g, out, &cli, &dir, i),
+            10..=13 => cli_validate(cr, g, out, &cli, &dir, i),
+            14..=15 => cli_check_parse(cr, g, out, &cli, &dir, i),
+            16..=18 => cli_translate(cr, g, out, &cli, &dir, i),
+            _ => cli_format(cr, g, out, &cli, &dir),
         }
-    }
+        out.cases += 1;
+    }));
 }
